@@ -63,6 +63,27 @@ META = {
         note="NOT decided: feat_deltas for general (dim, time_dim, concatenate, pad_mode) and time_distributed_return: pure functions with no history, schedule or fault in them. Trusted: numpy float64 two-pass statistics; dtype-aware tolerances.",
         technique="deterministic simulation: tape-driven partition/order histories of one accumulator, and the directory command on a simulated FS with permuted listings, against pooled float64 statistics",
     ),
+    "C17": dict(
+        category="exploration",
+        text="The console commands are called in-process on a real scratch directory; torch.multiprocessing pools are replaced by SimPool, a single-threaded executable model of multiprocessing.Pool whose feed / assign / work / deliver events are picked by the seeded choice tape (completion order, chunk assignment, consumer lag, feeder run-ahead), with pickle round trips for everything crossing the process boundary and seed-permuted directory listings. Each pipeline (trn, ctm, TextGrid round trips; ali<->token; error rates; subset; length moments, mvn stats, info; chunk command) is run serially and under 2-3 pooled configurations: inverse-pair and printed-figure oracles are judged on the serial run (figures against a float64 / pure-Python DP recomputation), and every pooled run must reproduce the serial run's files, printed text and exit status.",
+        design="DESIGN.md section 4 (C17), 3.4",
+        note="Trusted: SimPool's model of multiprocessing.Pool (workers share the imported module; spawn start-up state, real pipes and OS-killed workers not modelled); SimDataLoader stub for DataLoader(num_workers>0) (torch's in-order contract assumed); oracles in props/pipelines.py. No I/O errors injected.",
+        technique="deterministic simulation: tape-scheduled model of the worker pool, permuted listings, serial-vs-pooled differential + inverse-pair / recomputation oracles",
+    ),
+    "C10": dict(
+        category="exploration",
+        text="Last sentence only (chunking a data directory). chunk-torch-spect-data-dir runs inside the C17 simulation (SimPool schedules, permuted listings, real files). Independently of the slicer, each chunk's window is read back from its name: features and alignments must equal source[start:end] (pad rules for constant / replicate), tokens must be exactly the contained (or overlapping) known segments in order with boundaries re-expressed from the slice start, feat/ali/ref file sets coincide, valid-only windows lie inside the sequence, lobe-size-0 window sets equal the documented ones, the output passes strict validation, and pooled runs equal the serial run.",
+        design="DESIGN.md section 4 (C10)",
+        note="NOT decided: which windows a policy prescribes for lobe sizes > 0 / window types / the padded regime (pure function). Known finding C10-D15 (boundary sign; a unit test pins it) is reported as KNOWN-FINDING. Trusted: SimPool, the name-based oracle in props/pipelines.py::Chunk.",
+        technique="deterministic simulation: the chunk command under tape-scheduled SimPool on a scratch directory, window-from-name oracle + serial-vs-pooled differential",
+    ),
+    "C11": dict(
+        category="exploration",
+        text="Decides the schedule, stream and (sampled) round-trip clauses: multi-process read_trn runs on SimPool (ordered imap) under tape-chosen completion orders, chunk sizes, queue depths and worker counts and must return the processes=0 list; every writer is driven through a path, an open file and a StringIO with option vectors that differ from the defaults and the bytes are compared, every reader through a path and an open file; write-then-read is judged for trn (nested alternates), ctm (any wfn/channel mapping, mandated order), TextGrid (interval/point tiers, precision 0..6, gap filling) and token tensors (times within one frame shift).",
+        design="DESIGN.md section 4 (C11)",
+        note="The first sentence ('for every collection of transcripts') is an input-space statement that the workload only samples. Known finding C11-D3b (explicit point_tier not forwarded through a path; a unit test pins the resulting tier type). Trusted: SimPool; generator discipline (delimiter-free tokens, times on the print grid).",
+        technique="deterministic simulation: tape-scheduled SimPool for multi-process parsing, path/file/buffer stream seam differential, write-read round trip",
+    ),
 }
 
 
